@@ -260,6 +260,17 @@ static void do_cap(const std::vector<std::string> &f)
     puts(o.str().c_str());
 }
 
+// what follows the k-th element in its memory block: a nested bundle needs a
+// zero word (the API's precondition, bundles are not self-delimiting); a
+// message needs nothing - the block ends with it (k even) or arbitrary bytes
+// follow (k odd)
+static void elem_tail(std::vector<uint8_t> &b, size_t k)
+{
+    bool bun = b.size() >= 8 && !memcmp(b.data(), "#bundle", 8);
+    if(bun) b.insert(b.end(), 4, 0);
+    else if(k % 2) b.insert(b.end(), 4, 0xAA);
+}
+
 static size_t call_bundle(char *buf, size_t cap, uint64_t tt, const std::vector<const char*> &e)
 {
     switch(e.size()) {
@@ -284,7 +295,7 @@ static void do_bcap(const std::vector<std::string> &f)
     if(f[3] != "-")
         for(auto &h : split(f[3], ',')) {
             auto b = unhex(h);
-            b.insert(b.end(), 4, 0);          // the API's precondition: a zero word follows
+            elem_tail(b, keep.size());
             keep.emplace_back(new ExactBuf(b));
             e.push_back((const char*)keep.back()->p);
         }
@@ -328,19 +339,15 @@ static std::vector<uint8_t> build(const Node &n, std::ostringstream &o)
     std::vector<const char*> e;
     size_t total = 16;
     for(auto &b : kb) {
-        std::vector<uint8_t> z(b); z.insert(z.end(), 4, 0);
+        std::vector<uint8_t> z(b); elem_tail(z, keep.size());
         keep.emplace_back(new ExactBuf(z));
         e.push_back((const char*)keep.back()->p);
         total += 4 + b.size();
     }
-    // built into a block of exactly the bundle's size, then read from a copy
-    // with four more zero bytes (readers look at the word after the last element)
+    // built into, and read back from, a block of exactly the bundle's size
     std::vector<uint8_t> ex(total, 0xAA);
-    ExactBuf E(ex);
-    size_t r = call_bundle((char*)E.p, total, n.tt, e);
-    std::vector<uint8_t> z(total + 4, 0);
-    memcpy(z.data(), E.p, total);
-    ExactBuf B(z);
+    ExactBuf B(ex);
+    size_t r = call_bundle((char*)B.p, total, n.tt, e);
     const char *buf = (const char*)B.p;
     o << "[r=" << r << " p=" << rtosc_bundle_p(buf) << " n=" << rtosc_bundle_elements(buf, r)
       << " tt=" << rtosc_bundle_timetag(buf) << " L=" << rtosc_message_length(buf, r) << " e=";
